@@ -301,10 +301,10 @@ func idHasProp(id, fn string) bool { return true }
 
 func writeEvidence(path string, cfg CheckConfig, obls []evObl, funcs []string, samples []interface{}, violations int, start time.Time, assumptions []string, extra map[string]interface{}) {
 	cov := map[string]interface{}{
-		"obligations":  0,
-		"discharged":   0,
-		"checker_cmd":  fmt.Sprintf("/verif/check %s %s", cfg.Property, cfg.Tier),
-		"trusted_base": []string{"govc (this VC generator: SSA semantics, WP rules, instantiation, int translation)", "golang.org/x/tools/go/ssa v0.29.0", "z3 4.8.12", "z3 5.1.0 (z3-new)", "Go compiler agrees with the Go specification"},
+		"obligations":              0,
+		"discharged":               0,
+		"checker_cmd":              fmt.Sprintf("/verif/check %s %s", cfg.Property, cfg.Tier),
+		"trusted_base":             []string{"govc (this VC generator: SSA semantics, WP rules, instantiation, int translation)", "golang.org/x/tools/go/ssa v0.29.0", "z3 4.8.12", "z3 5.1.0 (z3-new)", "Go compiler agrees with the Go specification"},
 		"functions_under_contract": funcs,
 		"obligation_list":          obls,
 		"samples":                  samples,
